@@ -889,6 +889,8 @@ class NF:
                 args, kws = [args[0], kws[lo_k], kws[hi_k]], {}
             elif len(args) == 2 and hi_k and len(kws) == 1:
                 args, kws = [args[0], args[1], kws[hi_k]], {}
+        if short_ == "clip" and len(args) == 3 and not kws and args[1] == args[2]:
+            return args[1]       # an interval of one point: the value is that point for every x
         if short_ == "clip" and len(args) == 3 and not kws:
             # clip(x, lo, hi) == minimum(maximum(x, lo), hi) is symmetric in (x, lo): canonical order of the first two
             args = sorted(args[:2], key=lambda a: a.canon()) + [args[2]]
